@@ -1,17 +1,30 @@
 """C11 — The cache never changes what a client does.
 
 Proof: coq/C11/Props.v — over a model of suds/cache.py at system-call granularity
-(abstract directory, clock, FileCache/DocumentCache/ObjectCache instances sharing it,
-put/get/purge/clear/__check_version/_getf/__remove_if_expired with suds' exception
-handling, torn writes) every lookup along ANY history returns nothing or the latest fresh
-completed store, never raises, and removes damaged entries; file names and mangled ids
-never alias; the reader layer (policy switch, options re-attachment) on top of it.
+(coq/C11/Model.v: abstract directory, clock, FileCache/DocumentCache/ObjectCache instances
+sharing it, put/get/purge/clear/__check_version/_getf/__remove_if_expired as programs in an
+exception monad with suds' try/except structure, torn writes and open/read/write/close
+faults) every lookup along ANY history returns nothing or the latest fresh completed store,
+nothing raises, damaged and expired entries are removed, a foreign version's entries are
+cleared; file names and mangled ids never alias; on top of it the reader layer
+(coq/C11/Reader.v: Reader.mangle, the policy switch of DocumentReader/DefinitionsReader, fetch
+and re-put on a miss, options re-attachment) fetches nothing when warm; any interleaving of
+system calls of any number of processes is safe provided the format rejects mixtures
+(coq/C11/Interleave.v).  ser/deser/md5/the version string are universally quantified, the
+assumptions about them are hypotheses of the theorems.
 
-Tie to the code: real cache instances in a temporary directory with an injected clock
-(suds.cache's os/datetime/open are shimmed from here, no source hook) are driven through
-generated histories (the model and the specification are evaluated in Coq on the observed
-results and directory listings); real cached WSDL/XSD documents and pickled WSDL objects
-are torn at byte offsets; cold and warm clients are compared under both caching policies.
+Tie to the code: (a) real cache instances in a temporary directory with an injected clock
+(suds.cache's os / datetime / open are shimmed from here, no source hook) are driven through
+generated histories; results and directory listings are compared, in Coq, with the model
+(c11_hist_agrees) and the specification (c11_hist_spec_ok).  (b) entries written by real
+clients (cached WSDL/XSD documents, pickled documents, pickled Definitions) are cut at byte
+offsets, zero-filled, written over one another (c11_sweep_agrees / c11_sweep_spec_ok /
+c11_overlay_spec_ok) -- this validates the format hypotheses H1/H2/H3 for the generated family.
+(c) client scenarios over generated document graphs: cold and warm clients x cache class x
+cachingpolicy x changed options, entries torn/removed/expired in between; fetch log, outcome
+and directory listing vs the reader model (c11_client_agrees), behaviour vs an uncached client
+and "fetches nothing when warm" (c11_client_spec_ok).  (d) thorough tier: 4..16 real processes
+hammering one directory.
 """
 import datetime
 import io
